@@ -6,10 +6,11 @@ EXTENDS PagingModel
 CONSTANT MaxLen
 Types == {"A", "B"}
 CaseSpace ==
-  UNION {[api : {"tags", "repos", "referrers"}, len : {k}, types : [1..k -> Types], last : 0..k, n : 0..3, m : 0..3,
+  UNION {[api : {"tags", "repos", "referrers", "ocitags"}, len : {k}, types : [1..k -> Types], last : 0..k, n : 0..3, m : 0..3,
           link : {"abs", "path", "query", "extra"}, cbfail : 0..2, filter : {"", "A"}, serverfilters : BOOLEAN,
           oversize : 0..2] : k \in 0..MaxLen}
-Sensible(c) == /\ (c.api # "referrers" => (c.filter = "" /\ ~c.serverfilters /\ \A i \in 1..c.len : c.types[i] = "A"))
+Sensible(c) == /\ (c.api \notin {"referrers", "ocitags"} => (c.filter = "" /\ ~c.serverfilters /\ \A i \in 1..c.len : c.types[i] = "A"))
+               /\ (c.api = "ocitags" => (c.filter = "" /\ ~c.serverfilters /\ c.n = 0 /\ c.m = 0 /\ c.link = "abs" /\ c.oversize = 0 /\ c.cbfail <= 1))
                /\ (c.filter = "" => ~c.serverfilters)
                /\ (c.api = "referrers" => c.last = 0)           \* the referrers API has no `last`
                /\ (c.link # "abs" => c.oversize = 0)            \* vary one dimension at a time
